@@ -46,6 +46,18 @@ CLAIMED = {
             'it reports the new type, unattached and unrelated symbols keep theirs. Sampling, not proof.',
             'The inputs cross-product of the statement is covered only as far as histories draw it. Symbols attached to '
             'descendant scopes are not judged after an update in an ancestor (the statement does not say).'),
+    'C16': ('attachworld', 'DESIGN.md sec. 5 (C16)',
+            'deterministic simulation with fault injection: seeded well-nested programs over the attach/detach '
+            'contexts (pragmas, pragma regions, dataflow) with an exception injected at a simulator-chosen body step '
+            'that unwinds through all enclosing contexts; before/after oracle at quiescence',
+            'Seeded exploration of nesting histories (depth <= 4, context managers and explicit function pairs, '
+            'routine and module targets, node-type subsets, keyword filters) on generated units with pragmas before/'
+            'after loops, declarations and calls, matched/nested/unmatched/crossed region pairs; fault = exception at '
+            'an arbitrary body step. Oracle: fgen and section-level conservative output byte-identical, canonical '
+            'structural dump identical, all prior node objects still in the tree, no PragmaRegion / attached pragma / '
+            'dataflow slot left. Sampling, not proof.',
+            'Exceptions raised by attach itself make a run inconclusive (the statement speaks of the body); '
+            'Source.status bookkeeping is judged only through the conservative backend output.'),
 }
 
 NA_COMMON = ('pure function of (source text / IR, options, valuations): no scheduler, clock, fault, shared state '
